@@ -21,3 +21,76 @@ Print Assumptions c14_stream_add_frag.
 Theorem c14_flush_keeps_frags : forall b b', wb_flush b = Ok b' -> frags b' = frags b.
 Proof. exact Conserve.c14_flush_keeps_frags. Qed.
 Print Assumptions c14_flush_keeps_frags.
+
+(* ---------- tree level (Proofs/FragStream.v): the combined stream of document characters and markers ----------
+   mstream_tree = every marker and character of the tree in document order; mstream_min = the same minus the markers that trail
+   the content of a nested block (those may be dropped: their elements have no visible content behind them);
+   msub a b = a is b with only markers deleted.  Overflow off: with overflow on a marker directly after a character wider
+   than the block is lost (Example marker_lost_after_overflowing_char). *)
+From H2T Require Import Sub Dom Render Api Proofs.Conserve Proofs.WrapInv Proofs.RenderWidth Proofs.Footnotes Proofs.RenderConserve Proofs.FragStream.
+Theorem c14_render_node_no_table :
+  forall (d : deco) (mw : N) (n : rnode) (st st' : rstate) (s : subr) (rest : list subr),
+       prefix_made d ->
+       no_table n = true ->
+       stack st = s :: rest ->
+       J s ->
+       render_node d mw n st = Ok st' ->
+       exists (s' : subr) (t : list sitem),
+         stack st' = s' :: rest /\
+         J s' /\ mstream_out s' = mstream_out s ++ t /\ msub (mstream_min d n) t /\ msub t (mstream_tree d n).
+Proof. exact FragStream.c14_render_node_no_table. Qed.
+Print Assumptions c14_render_node_no_table.
+
+Theorem c14_render_tree_no_table :
+  forall (d : deco) (mw : N) (o : ropts) (width : N) (tree : rnode) (s : subr),
+       prefix_made d ->
+       o_allow_overflow o = false ->
+       no_table tree = true ->
+       render_tree d mw o width tree = Ok s ->
+       btw (mstream_min d tree) (mstream_out s) (mstream_tree d tree) /\
+       (forall ls : list rline,
+        sub_into_lines s = Ok ls -> btw (strip (mstream_min d tree)) (mlines ls) (mstream_tree d tree)).
+Proof. exact FragStream.c14_render_tree_no_table. Qed.
+Print Assumptions c14_render_tree_no_table.
+
+Theorem c14_lines_from_read :
+  forall (ist : list (text * text) -> res (list styledecl)) (dr : list node -> res (list ruleset))
+         (c : config) (doc : list node) (width : N) (tree : rnode) (tls : list tline),
+       prefix_made (c_deco c) ->
+       c_overflow c = false ->
+       to_render_tree ist dr c doc = Ok tree ->
+       no_table tree = true ->
+       lines_from_read ist dr c doc width = Ok tls ->
+       btw (strip (mstream_min (c_deco c) tree)) (flat_map mline tls) (mstream_tree (c_deco c) tree).
+Proof. exact FragStream.c14_lines_from_read. Qed.
+Print Assumptions c14_lines_from_read.
+
+Theorem c14_markers :
+  forall (ist : list (text * text) -> res (list styledecl)) (dr : list node -> res (list ruleset))
+         (c : config) (doc : list node) (width : N) (tree : rnode) (tls : list tline),
+       prefix_made (c_deco c) ->
+       c_overflow c = false ->
+       to_render_tree ist dr c doc = Ok tree ->
+       no_table tree = true ->
+       lines_from_read ist dr c doc width = Ok tls ->
+       let O := flat_map mline tls in
+       let T := mstream_tree (c_deco c) tree in
+       let M := strip (mstream_min (c_deco c) tree) in
+       projr O = projr T /\
+       (forall (a : list (text + chr)) (name : text) (b : list (text + chr)),
+        O = a ++ inl name :: b ->
+        exists a' b' : list (text + chr),
+          T = a' ++ inl name :: b' /\ projr a' = projr a /\ projr b' = projr b) /\
+       (forall (a : list (text + chr)) (name : text) (b : list (text + chr)),
+        M = a ++ inl name :: b ->
+        exists a' b' : list (text + chr),
+          O = a' ++ inl name :: b' /\ projr a' = projr a /\ projr b' = projr b) /\
+       (NoDup (projl T) -> NoDup (projl O)).
+Proof. exact FragStream.c14_markers. Qed.
+Print Assumptions c14_markers.
+
+Theorem mstream_tree_chars :
+  forall (d : deco) (n : rnode), no_table n = true -> projr (mstream_tree d n) = doc_stream d n.
+Proof. exact FragStream.mstream_tree_chars. Qed.
+Print Assumptions mstream_tree_chars.
+
